@@ -188,6 +188,45 @@ func C06(tier string) {
 			progs = append(progs, detProgram{Name: fmt.Sprintf("gen%02d-bt%d", p, b2i(bt)), Dir: dir, YAML: c.YAML(), OrigDir: dir, Backtrace: bt, Files: files, Batch: b})
 		}
 	}
+	// A fixed program aimed at order-dependent state: same-named local types with different fields in several
+	// functions (anything cached by a type's printed name), long chains and fork/join shapes analysed with a depth
+	// bound (anything that depends on which path reaches a node first). The untainted field of every local record
+	// goes to rt.Nop2, configured as a sink here, so that a loss of field sensitivity changes the flow set.
+	if tier != "smoke" {
+		var chains []gen.Chain
+		id := 1
+		addc := func(l ...string) {
+			chains = append(chains, gen.Chain{ID: id, Links: l})
+			id++
+		}
+		for k := 0; k < 3; k++ {
+			addc("localtypea")
+			addc("localtypeb")
+			addc("localtypea", "concat")
+			addc("idcall", "localtypeb")
+		}
+		addc("ifdiamond", "idcall", "structfield", "closureret", "concat", "idcall")
+		addc("idcall", "ifdiamond", "idcall", "ifdiamond", "idcall", "copy")
+		addc("closureret", "closureparam", "idcall", "retstruct", "ifdiamond")
+		addc("loopphi", "idcall", "idcall", "idcall", "concat", "idcall", "structfield")
+		b := &gen.Batch{Chains: chains}
+		dir := filepath.Join(run.Scratch, "genfixed")
+		files := b.Files()
+		if err := gen.WriteProgram(dir, files); err != nil {
+			run.Inconclusive(err.Error())
+		} else {
+			for _, depth := range []int{0, 6, 10, 14} {
+				for _, od := range []bool{false, true} {
+					c := ChainCfg{Name: "fs", FieldSens: true, Rewrites: true, OnDemand: od}
+					y := strings.ReplaceAll(c.YAML(), `"^Sink[SR2]?$"`, `"^(Sink[SR2]?|Nop2)$"`)
+					if depth > 0 {
+						y = strings.Replace(y, "options:\n", fmt.Sprintf("options:\n  unsafe-max-depth: %d\n", depth), 1)
+					}
+					progs = append(progs, detProgram{Name: fmt.Sprintf("genfixed-d%d-od%d", depth, b2i(od)), Dir: dir, YAML: y, OrigDir: dir, Files: files, Batch: b})
+				}
+			}
+		}
+	}
 	addReal := func(sub string, names []string, bt bool) {
 		for _, d := range realTaintPrograms(sub) {
 			ok := len(names) == 0
@@ -216,7 +255,7 @@ func C06(tier string) {
 	var mu sync.Mutex
 	ordersSeen := map[string]map[string]bool{}
 	totalRuns := 0
-	core.Parallel(len(progs), 4, func(pi int) {
+	core.Parallel(len(progs), 6, func(pi int) {
 		p := progs[pi]
 		work := filepath.Join(run.Scratch, "work-"+p.Name)
 		_ = os.MkdirAll(work, 0o755)
